@@ -16,7 +16,7 @@ RULE = ('database states are built through the real ircdb API (newUser/setUser/a
         'only while strictRfc is off: extbans, masks without ! / @; databases.users.timeoutIdentification 0<->1 for users); the load-time strictRfc is an '
         'input of the model channel reader; the preferred encoding of the locale at load time (utf-8 / latin-1 / ascii, injected through the open() the readers call) '
         'is varied as well and is an input of the model (reread).  The dictionary under test is installed as ircdb.users while operations run, so refused operations '
-        '(nick already owned by another account, duplicate hostmask without pre-check, invalid capability) are exercised; every addNick/removeNick call is '
+        '(nick already owned by another account, duplicate hostmask without pre-check, invalid capability) are exercised, as are nicks the non-strict isNick lets through (newline, tab, other whitespace, empty); every addNick/removeNick call is '
         'also diffed against the model of the mutators.  non-trivial = distinct case with at least one record')
 TRUSTED = ['str.isspace table, rfc1459 fold table, writer keywords and Creator method names are regenerated from the source (T16)',
            'configuration: T16.CONF_READ_* = options read by the code reachable from each reader / the writers (typed call graph over ircdb.py and '
@@ -216,7 +216,7 @@ def apply_user_op(ircdb, d, op):
                     u.addNick(op[2], op[3])
                 else:
                     u.removeNick(op[2], op[3])
-            except (KeyError, AssertionError) as e:
+            except (KeyError, AssertionError, ValueError) as e:
                 exc = type(e).__name__
             if rec is not None:
                 rec['after'], rec['exc'] = dump_user(i, u), exc
@@ -333,7 +333,8 @@ def _final(inp):
 
 
 def _texts(u):
-    return [u[1], u[5]] + u[6] + u[7] + [n for n, _ in u[8]] + [x for _, v in u[8] for x in v] + u[9]
+    # nick networks and nicks are validated by IrcUser.addNick since the repair C16.j: not free text
+    return [u[1], u[5]] + u[6] + u[7] + u[9]
 
 
 def has_newline(inp):
@@ -351,8 +352,6 @@ def ws_mangled(inp):
         for t in [u[1]] + ([u[5]] if u[5] else []) + u[9]:
             if t[:1].isspace() or '\t' in t or t == '':
                 return True
-        if any((n == '' or any(ch.isspace() for ch in n)) for n, _ in u[8]):
-            return True
     return False
 
 
@@ -423,6 +422,8 @@ HOSTS = ['xxx!yyy@*', 'al!ice@host', 'AL!ice@HOST', '*!*@host', 'bob!*@*.example
          'zz!yy@xx', 'nomask', 'a b!c@d', 'q!w@e\n', '#x!y@z', 'ab*!*@*', '*ab!*@*']
 NETS = ['libera', 'Net2', 'n 3']
 NICKS = ['alice', 'Al', 'bob_', '[x]', 'a b', '']
+# nicks the non-strict ircutils.isNick lets through although the `nicks <network> a b c` line cannot hold them
+NICKS_HOSTILE = ['x\n\tcapability\towner', 'alice\n', 'a\tb', '\talice', 'a\rb', 'a\x0bb', 'a\xa0b', 'a\x0c', 'x\u2028y', 'x\r\n  capability owner']
 GPG = ['0xDEADBEEF', 'key with space', ' k', 'k\n  capability owner', 'A\tB']
 
 
@@ -446,7 +447,7 @@ def gen_user_ops(rng, hostile):
         elif k < 0.50:
             ops.append(['unhost', i, rng.choice(HOSTS)])
         elif k < 0.60:
-            ops.append(['nick', i, rng.choice(NETS), rng.choice(NICKS)])
+            ops.append(['nick', i, rng.choice(NETS), rng.choice(NICKS + (NICKS_HOSTILE if hostile or rng.random() < 0.15 else []))])
         elif k < 0.62:
             ops.append(['unnick', i, rng.choice(NETS), rng.choice(NICKS)])
         elif k < 0.64:
@@ -992,6 +993,9 @@ CORPUS = [
     {'db': 'ignores', 'ops': [['add', 'a!b@c', 0], ['add', 'q!w@e', NOW + 50.5], ['add', 'A!B@C', NOW - 10]]},
     {'db': 'ignores', 'ops': [['add', '#x!y@z', 0]]},
     {'db': 'users', 'ops': [['reg', 'a', 'pw', ''], ['reg', 'b', 'pw', ''], ['nick', 0, 'libera', 'alice'], ['nick', 1, 'libera', 'alice']]},
+    {'db': 'users', 'ops': [['reg', 'plain', 'pw', ''], ['reg', 'later', 'pw', ''], ['nick', 0, 'libera', 'x\n\tcapability\towner']]},
+    {'db': 'users', 'ops': [['reg', 'plain', 'pw', ''], ['nick', 0, 'libera', 'ok'], ['nick', 0, 'libera', 'a\tb'], ['nick', 0, 'libera', 'alice\n'],
+                            ['nick', 0, 'libera', ''], ['nick', 0, 'libera', 'a\xa0b'], ['nick', 0, 'n 3', 'x'], ['nick', 0, '', 'x'], ['nick', 0, 'libera', 'fine']]},
     {'db': 'users', 'ops': [['reg', 'a', 'pw', 'x!y@z'], ['reg', 'b', 'pw', ''], ['host!', 1, 'x!y@z'], ['host!', 1, 'X!Y@Z'], ['cap', 1, 'a b'],
                             ['cap', 1, '-owner'], ['nick', 0, 'n 3', 'alice'], ['nick', 1, 'libera', 'a b'], ['unnick', 1, 'libera', 'nobody'],
                             ['nick', 0, 'libera', 'alice'], ['nick', 0, 'libera', 'alice'], ['nick', 1, 'Net2', 'alice'], ['nick', 1, 'libera', 'alice']]},
